@@ -47,7 +47,29 @@ class FakeManager:
         return sim.SharedList(init)
 
     def Lock(self):
-        return sim.RLock()
+        lk = sim.RLock()
+        if getattr(self, 'lock_role', None):
+            lk.role = self.lock_role
+        return lk
+
+    def register(self, name, cls):
+        # SyncManager.register: `manager.<name>(…)` then creates an object that lives in the manager and is shared by every process
+        self.__dict__.setdefault('registry', {})[name] = cls
+
+    def __getattr__(self, name):
+        reg = self.__dict__.get('registry') or {}
+        if name in reg:
+            cls = reg[name]
+
+            def make(*a, **k):
+                shared = type('Shared' + cls.__name__, (cls,), {'__deepcopy__': lambda self_, memo: self_})
+                obj = cls.__new__(shared)
+                # (the object's own __init__ would create an OS lock: it gets a simulated one instead)
+                obj.lock = sim.RLock()
+                obj.highest_position = None
+                return obj
+            return make
+        raise AttributeError(name)
 
     def __deepcopy__(self, memo):
         # what a forked worker holds is its own copy; the manager PROCESS belongs to the object of the process that started it
@@ -119,30 +141,16 @@ def install(seed, max_steps=3000000, max_virtual=3000.0):
     _set(mpire.progress_bar, 'Thread', sim.Thread)
     _set(mpire.progress_bar, 'Event', sim.Event)
 
-    # tqdm manager: no SyncManager process; a sim lock and an in-process position register
+    # tqdm manager: no SyncManager process — TqdmManager.start_manager itself is the library's; what it gets from create_sync_manager is
+    # the stand-in (a sim lock, a position register that lives in this process)
     TM = mpire.tqdm_utils.TqdmManager
 
-    def start_manager(cls, use_dill):
-        if cls.LOCK is not None:
-            return False
-        with mpire.signal.DisableKeyboardInterruptSignal():
-            cls.MANAGER = FakeManager()
-            cls.MANAGER.start()
-            cls.LOCK = sim.RLock()
-            cls.LOCK.role = 'tqdm_lock'
-            reg = mpire.tqdm_utils.TqdmPositionRegister.__new__(mpire.tqdm_utils.TqdmPositionRegister)
-            reg.lock = sim.RLock()
-            reg.highest_position = None
-            reg.__class__ = _SharedRegister
-            cls.POSITION_REGISTER = reg
-        return True
+    def _fake_sync_manager(use_dill):
+        m = FakeManager()
+        m.lock_role = 'tqdm_lock'
+        return m
 
-    class _SharedRegister(mpire.tqdm_utils.TqdmPositionRegister):
-        def __deepcopy__(self, memo):
-            return self
-
-    _saved.append((TM, 'start_manager', TM.__dict__['start_manager']))
-    TM.start_manager = classmethod(start_manager)
+    _set(mpire.tqdm_utils, 'create_sync_manager', _fake_sync_manager)
     TM.MANAGER = None
     TM.LOCK = None
     TM.POSITION_REGISTER = None
